@@ -211,6 +211,17 @@ def observe_eval(c):
         bt = guard('into_bench', _bench)
         if bt is not None:
             bench_rows = _rowsets(bt, len(outs), bad, 'into_bench')
+
+        # ... and the whole-circuit entry point on the converted copy gives every ORIGINAL gate its value
+        def _bench_full():
+            cb = _copy.copy(c)
+            cb.into_bench()
+            return [cb.evaluate_full_circuit({l: v for l, v in zip(cb.inputs, x)}) for x in rows]
+
+        bf = guard('into_bench+evaluate_full_circuit', _bench_full)
+        bench_full = _table(bf, labels) if bf is not None else None
+    else:
+        bench_full = None
     tt = guard('get_truth_table', lambda: c.get_truth_table())
     gtt = guard('get_gates_truth_table', lambda: c.get_gates_truth_table())
     single = []
@@ -247,6 +258,7 @@ def observe_eval(c):
         'circ': _table(o_circ, labels),
         'gtt': gtab,
         **({'bench': bench_rows} if bench_rows is not None else {}),
+        **({'bench_full': bench_full} if bench_full is not None else {}),
         'outs_r': _table(r_outs, outs),
         'full_r': _table(r_full, labels),
         'circ_r': _table(r_circ, labels),
